@@ -122,9 +122,16 @@ func main() {
 	for k := 0; k < 4; k++ { // every run starts with the scripted attacks
 		g.attackEpisode(&cl, k)
 	}
+	for n := 4; n <= 7; n++ { // ... and with the partial-prepare / J2 episodes (exactly quorum-many running members)
+		g.preparedEpisode(&cl, n, n%2 == 0, 0)
+		g.preparedEpisode(&cl, n, n%2 == 1, 0)
+		g.preparedEpisode(&cl, n, true, 1)
+	}
 	for run.NOps < a.N && !run.Enough() {
 		if rng.Chance(1, 25) {
 			g.attackEpisode(&cl, rng.Intn(4))
+		} else if rng.Chance(1, 16) {
+			g.preparedEpisode(&cl, 4+rng.Intn(4), rng.Chance(1, 2), rng.Intn(2))
 		} else if rng.Chance(1, 4) {
 			g.syncEpisode(&cl)
 		} else {
